@@ -291,6 +291,9 @@ where
             props: irs
                 .into_iter()
                 .map(|(prop_name, mut ir)| {
+                    // Vue doesn't call the default of a prop whose type is exactly `Function`
+                    let is_function_prop = ir.types.len() == 1
+                        && ir.types.first().and_then(|ty| ty.as_deref()) == Some("Function");
                     let mut props = vec![
                         PropOrSpread::Prop(Box::new(Prop::KeyValue(KeyValueProp {
                             key: PropName::Ident(quote_ident!("type")),
@@ -354,7 +357,19 @@ where
                     }) {
                         props.push(PropOrSpread::Prop(Box::new(Prop::KeyValue(KeyValueProp {
                             key: PropName::Ident(quote_ident!("default")),
-                            value: Box::new(default.clone()),
+                            value: Box::new(match default {
+                                // so it gets the written function itself, not the generated
+                                // factory around it
+                                Expr::Arrow(ArrowExpr {
+                                    span, params, body, ..
+                                }) if is_function_prop && span.is_dummy() && params.is_empty() => {
+                                    match &**body {
+                                        BlockStmtOrExpr::Expr(expr) => (**expr).clone(),
+                                        BlockStmtOrExpr::BlockStmt(..) => default.clone(),
+                                    }
+                                }
+                                _ => default.clone(),
+                            }),
                         }))));
                     }
                     PropOrSpread::Prop(Box::new(Prop::KeyValue(KeyValueProp {
